@@ -1,6 +1,8 @@
 package main
 
 import (
+	"crypto/sha256"
+	"encoding/hex"
 	"bufio"
 	"bytes"
 	stdflate "compress/flate"
@@ -184,6 +186,7 @@ type RObs struct {
 	After     []string // results of three further Reads: "n/kind"
 	Panic     string
 	Hang      bool
+	InKey     string // digest of the compressed input (and prior stream): cross-level comparison only when equal
 	SrcReads  int
 	GateAt    int
 	CtorErr   string
@@ -324,6 +327,10 @@ func RunR(api string, std bool, data []byte, dict []byte, sp SrcSpec, ctor strin
 	done := make(chan struct{})
 	var o RObs
 	o.GateAt = -1
+	kh := sha256.New()
+	kh.Write(data)
+	kh.Write([]byte{0})
+	kh.Write(dict)
 	go func() {
 		defer close(done)
 		defer func() {
@@ -345,6 +352,7 @@ func RunR(api string, std bool, data []byte, dict []byte, sp SrcSpec, ctor strin
 				if prior.Cut >= 0 && prior.Cut < len(first) {
 					first = first[:prior.Cut]
 				}
+				kh.Write(first)
 			} else {
 				first = emptyStream(api)
 			}
@@ -392,9 +400,13 @@ func RunR(api string, std bool, data []byte, dict []byte, sp SrcSpec, ctor strin
 		var out bytes.Buffer
 		zero := 0
 		var ferr error
+		var rbuf []byte
 		for {
 			k := rs.next()
-			buf := make([]byte, k)
+			if cap(rbuf) < k {
+				rbuf = make([]byte, k)
+			}
+			buf := rbuf[:k]
 			n, e := ra.r.Read(buf)
 			out.Write(buf[:n])
 			delivered += n
@@ -438,8 +450,9 @@ func RunR(api string, std bool, data []byte, dict []byte, sp SrcSpec, ctor strin
 	}()
 	select {
 	case <-done:
+		o.InKey = hex.EncodeToString(kh.Sum(nil)[:8])
 		return o
-	case <-time.After(30 * time.Second):
+	case <-time.After(120 * time.Second):
 		return RObs{Hang: true, Err: "HANG", GateAt: -1}
 	}
 }
